@@ -227,7 +227,7 @@ func TestC05(t *testing.T) {
 	}
 	t.Run("type_table", func(t *testing.T) {
 		b := ev.enum(t)
-		cs := typeTableCases()
+		cs := append(typeTableCases(), pgCorpusCases()...)
 		for i, c := range cs {
 			if !mine(i) {
 				continue
